@@ -53,6 +53,12 @@ struct StubGen {
   uint32_t operator()() { return v; }
 };
 
+static inline double d_of(unsigned long long b) { double d; std::memcpy(&d, &b, 8); return d; }
+static inline unsigned long long b_of64(double d) {
+  if (d != d) return 0x7FF8000000000000ull;   // canonical NaN
+  unsigned long long b; std::memcpy(&b, &d, 8); return b;
+}
+
 int main() {
   std::string line;
   while (std::getline(std::cin, line)) {
@@ -114,6 +120,15 @@ int main() {
         o << b_of(r.x) << " " << b_of(r.y) << " " << b_of(r.z) << " " << b_of(r.w);
         break;
       }
+      // ---- double instantiations / overloads of rkmath.h (arguments and results are binary64 bit patterns)
+      case 40: o << b_of64(rcp(d_of(ua[0]))); break;
+      case 41: o << b_of64(rcp_safe(d_of(ua[0]))); break;
+      case 42: o << b_of64(rsqrt(d_of(ua[0]))); break;
+      case 43: o << b_of64(clamp(d_of(ua[0]), d_of(ua[1]), d_of(ua[2]))); break;
+      case 44: o << b_of64(deg2rad(d_of(ua[0]))); break;
+      case 45: o << b_of64(madd(d_of(ua[0]), d_of(ua[1]), d_of(ua[2]))); break;
+      case 46: o << b_of64(lerp(f_of(a[0]), d_of(ua[1]), d_of(ua[2]))); break;      // factor is a float
+      case 47: o << (unsigned long long)clamp<unsigned>((unsigned)ua[0], (unsigned)ua[1], (unsigned)ua[2]); break;
       case 16: {   // deg2rad constant as compiled
         o << b_of(float(1.745329251994329576923690768489e-2)); break;
       }
